@@ -16,14 +16,20 @@ RULE = (
     "three streams. (rule, 40%) REAL Rule/ReverseRule objects of /repo — unions and products over the word "
     "classes of example.py (ExpansionStrategy, RemoveFrontOfPrefix, a prefix-splitting product with 2-4 children "
     "incl. size-0 atoms) and over synthetic classes with known counting sequences (1-4 children, atoms and "
-    "non-atoms in any position, minimum sizes 0-3), each also reversed w.r.t. every child (Complement, Quotient); "
+    "non-atoms in any position, minimum sizes 0-3), each also reversed w.r.t. every child (Complement, Quotient; "
+    "incl. the reverse of a ONE-factor product, a Quotient without sibling, fix 25e10f1); "
     "plus (about 25% of the rule stream) the DERIVED forms built through to_equivalence_rule / to_reverse_rule(0) / "
     "EquivalencePathRule of /repo: EquivalenceRule and EquivalenceRule(ReverseRule) of unions with 0-3 EMPTY siblings "
     "around the one non-empty child in any position (synthetic classes: atom or non-atom, minimum size 0-4; word "
     "classes all of whose one-letter extensions contain a pattern), equivalence paths of 1-5 steps walking up and down "
     "a tower of such unions, i.e. mixing forward steps and reverse steps (EquivalenceRule of a ReverseRule), over both "
-    "universes, and the same three forms on a ONE-child CartesianProductStrategy rule or with a product step in the "
-    "path, where /repo's constructor raises NotImplementedError (recorded, not a violation) and only shifts() is "
+    "universes, and the same three forms on a ONE-factor CartesianProductStrategy rule or with product steps in the "
+    "path; paths also of RAW one-child rules (the strategy's own Rule on a one-child union/product and its "
+    "to_reverse_rule(0), a plain ReverseRule with constructor Complement/Quotient: what specification_extrator.py "
+    "puts in a path), mixed with equivalence-rule steps. Since fix 25e10f1 /repo counts through all of these (their "
+    "recorded reads ARE compared with the model and NotImplementedError is a violation) except where a REVERSE step "
+    "over a product is wrapped in an EquivalenceRule (EquivalenceRule(ReverseRule(one-factor product))): there "
+    "/repo's constructor still raises NotImplementedError (recorded, not a violation) and only shifts() is "
     "compared. The model is run on form 4/5/6, the kind of strategy the rule inherits and the descriptor of the one "
     "class the rule hands to strategy.shifts (taken from the construction, not from rule.children); "
     "sub-term providers are wrapped and the sizes requested during get_terms(n), n = 0..N (N <= 12), recorded; "
@@ -32,8 +38,9 @@ RULE = (
     "ReverseRule.shifts / CartesianProductStrategy.shifts / DisjointUnionStrategy.shifts / Quotient.__init__ run "
     "on stub arguments incl. negative and out-of-range idx (translator self-test). "
     "Non-trivial: rule case with a level that reads >= 3 distinct (provider,size) pairs (for a Quotient: also an "
-    "own-term or sibling read; for a derived form: >= 3 levels computed, each with a read, or the one declared "
-    "shift of a product equivalence); comp case with k >= 2 and >= 2 compositions; shifts case with >= 2 children."
+    "own-term or sibling read, or, without sibling, >= 3 levels that read the original parent; for a derived form: "
+    ">= 3 levels computed, each with a read, or the one declared shift of a reverse product equivalence); comp case "
+    "with k >= 2 and >= 2 compositions; shifts case with >= 2 children."
 )
 TECHNIQUE = (
     "Coq proof over definitions REGENERATED from the source on every run (Python-ast -> Gallina translator, "
@@ -52,7 +59,14 @@ LEVEL_TEXT = (
     "'(class, children) pair the strategy never produced' subtlety is covered); that shift equals the original union "
     "rule's shift for that child, the reverse rule's shift for the original parent, and the sum of the shifts of a "
     "path's steps; for a product the original rule declares the sum of the other children's minimum sizes instead "
-    "(equal for a one-child product). C10_all_forms_reads_respect_declared_shifts states the property for all seven "
+    "(equal for a one-child product). For a product with ONE factor (any descriptor): the rule, its equivalence form, "
+    "a path over it and its reverse all declare exactly [0] (C10_one_factor_product_shifts); the rule reads exactly "
+    "its child at n when a composition exists and nothing otherwise, the equivalence form / path exactly the child at "
+    "n (C10_one_factor_product_reads); the reverse (Quotient without sibling) reads nothing below the child's minimum "
+    "size and then exactly the original parent at n, no own earlier term and no sibling, the _a and _c composition "
+    "lists being empty (C10_quotient_no_sibling_reads); the general theorems need only 0 <= idx < number of children "
+    "and so cover one factor (C10_one_factor_reads_respect_declared_shifts is their instance). "
+    "C10_all_forms_reads_respect_declared_shifts states the property for all seven "
     "forms at once. compositions, the three shifts functions and "
     "Quotient's parent-shift arithmetic are re-translated from /repo on every run (Gen/*.v); the hand-written "
     "transcription of which provider get_terms calls (Count/ReadsModel.v) is tied by recording the calls of real "
@@ -63,9 +77,11 @@ LEVEL_NOTE = (
     "translates), extraction + OCaml driver, the correspondence harness. Modelled not verified: the call structure "
     "of DisjointUnion/Complement/CartesianProduct/Quotient.get_terms (ReadsModel.v) and CartesianProduct.min_sizes/"
     "max_sizes; that EquivalenceRule / EquivalencePathRule count through a one-child DisjointUnion / Complement and "
-    "hand exactly their one child to strategy.shifts (derived_reads / derived_shifts of ReadsModel.v; for a product "
-    "strategy get_terms raises NotImplementedError in /repo, so there the modelled reads are only an upper bound "
-    "and only shifts() is compared). Not proved: the bridge to the forest's productivity analysis (DESIGN C10 item 5); parameters "
+    "hand exactly their one child to strategy.shifts (derived_reads / derived_shifts of ReadsModel.v; since fix "
+    "25e10f1 this includes ONE-factor product steps, forward and raw reverse, whose reads are compared like the "
+    "union ones; only for EquivalenceRule(ReverseRule(one-factor product)), alone or as a path step, get_terms "
+    "still raises NotImplementedError in /repo, so there the modelled reads are only an upper bound and only "
+    "shifts() is compared). Not proved: the bridge to the forest's productivity analysis (DESIGN C10 item 5); parameters "
     "(extra_parameters) do not influence which sizes are read and are not modelled."
 )
 TRUSTED = [
@@ -199,21 +215,29 @@ def _gen_derived(rng):
                 spec = dict(_gen_words_equiv(rng), derived="path")
                 spec["start"], spec["moves"] = _gen_walk(rng, 1, rng.randint(1, 4))
             else:
-                product = rng.random() < 0.2
-                tower = []
+                mode = rng.random()
+                product = mode < 0.5  # some one-factor product wrappers
+                raw = 0.15 <= mode < 0.7  # some RAW one-child steps (0.15..0.5: raw products and unions mixed)
+                tower, rawl = [], []
                 for _ in range(rng.randint(1, 4)):
                     if product and rng.random() < 0.6:
                         tower.append([0, 0, 1])
+                    elif raw and rng.random() < 0.5:
+                        tower.append([0, 0, 0])
                     else:
                         ne = rng.randint(0, 2)
                         tower.append([ne, rng.randint(0, ne), 0])
+                    rawl.append(int(raw and rng.random() < 0.8))
                 spec = {"universe": "series", "children": [_gen_leaf(rng)], "derived": "path", "tower": tower}
+                if any(rawl):
+                    spec["raw"] = rawl
                 spec["start"], spec["moves"] = _gen_walk(rng, len(tower), rng.randint(1, 5))
         else:
             derived = "equiv" if rng.random() < 0.5 else "equiv_rev"
             form = 0 if derived == "equiv" else 2
             if r < 0.55:
-                # ONE-child product: shifts only
+                # ONE-factor product: the forward equivalence counts since fix 25e10f1 (reads compared); the
+                # equivalence of its reverse still raises NotImplementedError in /repo (shifts only)
                 spec = {"universe": "series", "children": [_gen_leaf(rng)], "form": form + 1, "idx": 0, "derived": derived}
             elif r < 0.8:
                 ne = rng.choice([0, 1, 1, 2, 3])
@@ -235,9 +259,7 @@ def _gen_rule(rng):
         return _gen_derived(rng)
     form = rng.randrange(4)
     if rng.random() < 0.5:
-        k = rng.choice([1, 2, 2, 3, 3, 4])
-        if form == 3 and k == 1:
-            k = 2  # reverse of a one-child product divides by zero in /repo (reported, not C10)
+        k = rng.choice([1, 2, 2, 3, 3, 4])  # form 3 with k = 1: a Quotient without sibling (fix 25e10f1)
         kids = []
         for _ in range(k):
             atom = int(rng.random() < 0.4)
@@ -298,7 +320,8 @@ def encode(case):
         return [1, 3, case["children"], case["idx"]]
     if case["spec"].get("derived"):
         b = _built(case)
-        # shifts only (N = -1) where get_terms cannot run in /repo
+        # shifts only (N = -1) where get_terms cannot run in /repo: EquivalenceRule(ReverseRule(one-factor product))
+        # alone or as a step of a path; everywhere else the model's reads for n = 0..N are compared
         return [3, b["form"], b["strat"], b["d"], case["N"] if b["readable"] else -1]
     return [2, case["spec"]["form"], _built(case), case["spec"]["idx"], case["N"]]
 
@@ -359,11 +382,14 @@ def impl(case):
         shifts = list(rule.shifts())
         levels, exc = U.record_reads(rule, case["N"])
         levels = [[list(r) for r in lv] for lv in levels]
-        # where the constructor of /repo raises NotImplementedError (equivalence of a product) only the declared
-        # shifts are compared with the model; whatever was read is still judged by the oracle
+        # where the constructor of /repo raises NotImplementedError (equivalence rule of the REVERSE of a product) only
+        # the declared shifts are compared with the model; whatever was read is still judged by the oracle.
+        # Wherever the plan says `readable` a NotImplementedError is reported as `raised`, i.e. a violation.
         res = {"out": [shifts] + (levels if info["readable"] else []), "levels": levels,
                "nchildren": len(rule.children), "readable": info["readable"], "nsteps": info["nsteps"],
-               "reverse_steps": info["reverse_steps"], "siblings": info["siblings"], "strat": info["strat"]}
+               "reverse_steps": info["reverse_steps"], "siblings": info["siblings"], "strat": info["strat"],
+               "raw_steps": info["raw_steps"], "product_steps": info["product_steps"],
+               "raw_reverse_product_steps": info["raw_reverse_product_steps"]}
         if exc and not info["readable"] and exc.startswith("NotImplementedError at level 0"):
             res["not_implemented"] = True
         elif exc:
@@ -468,6 +494,8 @@ def nontrivial(case, res):
         return not res.get("raised") and len(out) >= 4 and all(out[1:])
     big = any(len(lv) >= 3 for lv in out[1:])
     if case["spec"]["form"] == 3:
+        if len(out[0]) == 1:  # Quotient without sibling: one read per level, of the original parent
+            return not res.get("raised") and sum(1 for lv in out[1:] if lv) >= 3
         return big and any(p == -1 or p >= 1 for lv in out[1:] for p, _ in lv)
     return big
 
@@ -493,13 +521,25 @@ def classify(case, res):
                         tags.append("rule:derived:path:reverse-step:" + s["universe"])
                         if res["reverse_steps"] < res["nsteps"]:
                             tags.append("rule:derived:path:mixed-directions")
+                    if res.get("raw_steps"):
+                        tags.append("rule:derived:path:raw-step")
+                        if res["raw_steps"] < res["nsteps"]:
+                            tags.append("rule:derived:path:raw-and-equivalence-steps")
+                    if res.get("raw_reverse_product_steps"):
+                        tags.append("rule:derived:path:raw-reverse-product-step")
+                    if res.get("product_steps"):
+                        tags.append("rule:derived:path:product-step")
                 elif res["siblings"]:
                     tags.append(d + ":empty-siblings")
                 tags.append("rule:derived:readable" if res["readable"] else "rule:derived:shifts-only")
+                if res["readable"] and (res["strat"] or res.get("product_steps")):
+                    tags.append("rule:derived:product-readable")
                 if res.get("not_implemented"):
                     tags.append("rule:derived:NotImplementedError")
         else:
             tags.append("rule:%s:form%d" % (s["universe"], s["form"]))
+            if s["universe"] == "series" and len(s["children"]) == 1 and s["form"] in (1, 3):
+                tags.append("rule:one-factor-product:form%d" % s["form"])
         out = res.get("out")
         if isinstance(out, list):
             tags.append("rule:k=%d" % len(out[0]))
@@ -580,7 +620,7 @@ def shrink(case):
             return
         if s["universe"] == "series":
             kids = s["children"]
-            if len(kids) > (2 if s["form"] == 3 else 1):
+            if len(kids) > 1:
                 for i in range(len(kids)):
                     if s["form"] >= 2 and i == s["idx"]:
                         continue
@@ -667,9 +707,13 @@ def extra_checks(ctx):
         "rule:derived:%s:%s-strategy" % (d, k) for d in ("equiv", "equiv_rev", "path") for k in ("union", "product")] + [
         "rule:derived:equiv:empty-siblings", "rule:derived:equiv_rev:empty-siblings",
         "rule:derived:path:reverse-step:series", "rule:derived:path:reverse-step:words",
-        "rule:derived:path:mixed-directions", "rule:derived:shifts-only"]
+        "rule:derived:path:mixed-directions", "rule:derived:shifts-only", "rule:derived:product-readable",
+        "rule:derived:path:raw-step", "rule:derived:path:raw-reverse-product-step",
+        "rule:derived:path:raw-and-equivalence-steps", "rule:derived:path:product-step",
+        "rule:one-factor-product:form1", "rule:one-factor-product:form3"]
     missing = [t for t in need if not tags.get(t)] if len(ctx.cases) >= 400 else []
     checks.append(("generator reaches every rule form (plain, reversed, equivalence, reverse-of-equivalence, paths "
-                   "with reverse steps, product equivalences), own-term reads, negative shifts", not missing,
+                   "with reverse steps, product equivalences read and shifts-only, one-factor products and their "
+                   "reverse, paths of raw one-child rules), own-term reads, negative shifts", not missing,
                    "never generated: %s" % missing if missing else "ok"))
     return checks
